@@ -5,7 +5,7 @@
    fail), so that API calls, received packets, Close and other loops interleave between them; the public
    send API and raw received frames are events too.  All theorems quantify over ALL event sequences. *)
 From PV Require Import Base.Prelude Base.Slice Model.ArpSpoof Spec.ArpSpoof
-  Proofs.ArpSpoof Proofs.ArpSpoofLoops Proofs.ArpSpoofRx.
+  Proofs.ArpSpoof Proofs.ArpSpoofLoops Proofs.ArpSpoofRx Proofs.ArpSpoofTimed Proofs.ArpSpoofMonitor.
 Open Scope N_scope.
 
 (* ---- confinement ----
@@ -115,6 +115,7 @@ Theorem C13_stop_undone : forall c s1 a i p x1 x2 x3,
   none_of (is_loop_event i) x2 -> none_of is_close x2 ->
   none_of (is_loop_event i) x3 ->
   let s4 := final c s1 (x1 ++ [Lookup i] ++ x2 ++ [Check i] ++ x3) in
+  loop_at s4 i a (PSend (restore c (amac a)) false) /\
   exists s5,
     step c s4 (Send i) = (s5, if Nat.eqb (failn s4) 0 then [restore c (amac a)] else []) /\
     loop_at s5 i a PDone.
@@ -171,15 +172,74 @@ Theorem C13_silent_after_close_refuted :
 Proof. exact silent_after_close_refuted. Qed.
 Print Assumptions C13_silent_after_close_refuted.
 
-(* ---- refused writes ----
-   K4 (recorded finding): when the write of an announcement is refused the loop returns and leaves the MAC in
-   the hunt list: hunted, handler open, yet no loop lives — nothing spoofs that MAC again, StartHunt of it is a
-   no-op, and after StopHunt nothing restores it. *)
-Theorem C13_write_error_kills_loop_refuted :
-  exists c evs m,
-    cfg_ok c /\
-    let s := final c init_state evs in
-    closed s = false /\ hunted s m = true /\ (forall i, live s i = false) /\
-    outputs c s [StopHunt m; Lookup 0; Check 0; Send 0] = [[]; []; []; []].
-Proof. exact write_error_kills_loop_refuted. Qed.
-Print Assumptions C13_write_error_kills_loop_refuted.
+(* ---- periodically while hunted; refused writes ----
+   In every run, while the handler is open every hunted MAC has a loop of its own that is running and has not
+   decided to stop (healthy: at its select, or holding a decision to announce).  Full since the repair of K4
+   (/repo: a refused announcement no longer ends the loop; refutation on the unrepaired model: verif commit
+   87e4145).  And such a loop's next iteration hands the connection the forged announcement for exactly that
+   MAC and goes back to its select — whether or not the write is refused. *)
+Theorem C13_hunted_has_loop : forall c evs m,
+  let s := final c init_state evs in
+  closed s = false -> hunted s m = true ->
+  exists i a p, loop_at s i a p /\ amac a = m /\ healthy p = true.
+Proof. exact hunted_has_loop. Qed.
+Print Assumptions C13_hunted_has_loop.
+
+Theorem C13_periodic_announce : forall c s a i p x1 x2 x3,
+  loop_at s i a p -> at_select p = true -> closed s = false ->
+  hunted (final c s x1) (amac a) = true ->
+  none_of (is_loop_event i) x1 -> none_of is_close x1 ->
+  none_of (is_loop_event i) x2 -> none_of is_close x2 ->
+  none_of (is_loop_event i) x3 ->
+  let s4 := final c s (x1 ++ [Lookup i] ++ x2 ++ [Check i] ++ x3) in
+  exists s5,
+    step c s4 (Send i) = (s5, if Nat.eqb (failn s4) 0 then [announce c (amac a)] else []) /\
+    loop_at s5 i a PWait.
+Proof. exact periodic_announce. Qed.
+Print Assumptions C13_periodic_announce.
+
+(* ---- ... within one cycle ----
+   Timed runs; real time enters ONLY through the named fairness hypothesis [fair c P tr] (Model/ArpSpoof.v:
+   within one ticker period P a loop that has not returned either returns or begins and completes an
+   iteration).  If StopHunt of a's MAC happens at time t while loop i (started for a) has not returned and
+   the handler is open, the run is observed until t+P, and until then there is neither a Close nor a new
+   StartHunt of that MAC, then by t+P loop i has handed the connection the restoring packet (on the wire
+   unless that write is refused) and has returned. *)
+Theorem C13_stop_undone_within_one_cycle : forall c P tr k t a i p0,
+  cfg_ok c -> time_ordered tr -> fair c P tr ->
+  nth_error tr k = Some (t, StopHunt (amac a)) ->
+  loop_at (state_before c tr k) i a p0 -> is_done p0 = false -> closed (state_before c tr k) = false ->
+  observed_until tr (t + P) ->
+  (forall j t' e, (k < j)%nat -> nth_error tr j = Some (t', e) -> (t' <= t + P)%Z ->
+                  is_close e = false /\ is_start_of (amac a) e = false) ->
+  exists j tj, (k < j)%nat /\ nth_error tr j = Some (tj, Send i) /\ (tj <= t + P)%Z /\
+    loop_at (state_before c tr j) i a (PSend (restore c (amac a)) false) /\
+    output_at c tr j = Some (if Nat.eqb (failn (state_before c tr j)) 0 then [restore c (amac a)] else []) /\
+    loop_at (state_before c tr (S j)) i a PDone.
+Proof. exact stop_undone_timed. Qed.
+Print Assumptions C13_stop_undone_within_one_cycle.
+
+Example C13_stop_undone_within_one_cycle_nonvacuous :
+  cfg_ok wit_cfg_t /\ time_ordered wit_timed /\ fair wit_cfg_t 6000 wit_timed /\
+  nth_error wit_timed 4 = Some (1000%Z, StopHunt (amac wit_a_t)) /\
+  loop_at (state_before wit_cfg_t wit_timed 4) 0 wit_a_t PWait /\
+  closed (state_before wit_cfg_t wit_timed 4) = false /\
+  observed_until wit_timed (1000 + 6000) /\
+  output_at wit_cfg_t wit_timed 7 = Some [restore wit_cfg_t (amac wit_a_t)] /\
+  loop_at (state_before wit_cfg_t wit_timed 8) 0 wit_a_t PDone.
+Proof. exact stop_undone_timed_nonvacuous. Qed.
+Print Assumptions C13_stop_undone_within_one_cycle_nonvacuous.
+
+(* ---- Spec = Model on every run ----
+   The monitor of Spec/ArpSpoof.v is the property text as a checker of observed runs (its own bookkeeping of
+   hunted MACs, offers, Close, refused writes and how far each loop's iteration got; clauses: confinement at
+   the decision, the caller's own forgery, probe-reject iff, spoof reply iff, invalid frames ignored,
+   StartHunt sends nothing, an iteration decided while the MAC is not hunted restores and ends the loop,
+   one decided while it is hunted announces to that MAC, terminated loops are silent, nothing of the handler's
+   own after Close except a frame already decided).  It raises no violation on ANY run of the model.  The
+   same monitor judges the implementation's observations in the correspondence run (column 2 of the dispatch). *)
+Theorem C13_monitor_accepts_model : forall c evs,
+  cfg_ok c ->
+  Forall (fun v => v = []) (sp_run c sp_init (observed (trace c init_state evs))).
+Proof. exact monitor_accepts_model. Qed.
+Print Assumptions C13_monitor_accepts_model.
